@@ -168,6 +168,9 @@ def default_source(kind, mode):
         return f" = Attr(default={src}, init=False)"  # (not in DEFAULT_MODES: the constructor takes no such keyword)
     if mode == "attr_factory":
         return f" = Attr(default_factory=lambda: (CB.hit('factory'), {src})[1])"
+    if mode == "ddict":
+        # a dict SUBCLASS that invents missing keys on lookup (collections.defaultdict): conforms to Dict[...], survives copies
+        return f" = Attr(default_factory=lambda: collections.defaultdict(int, {src}))" if kind in MAP_KINDS else None
     if mode == "field_default":
         if "mut" in K and kind not in ("leaf",):
             # dataclasses.field(default=<list>) is legal at call time (only @dataclass rejects it)
@@ -193,6 +196,7 @@ def default_spec(kind, mode):
 
 
 PRELUDE = '''
+import collections
 import dataclasses
 from dataclasses import field
 from typing import Any, Dict, List, Optional, Set, Union, Literal
